@@ -385,6 +385,8 @@ func (self *Runtime) InvokePipeline(src string, srcPath string, psid string,
 		}
 	}
 
+	verifEvent("InvokeChecked", "path", pipestancePath)
+
 	// Expand env vars in invocation source and instantiate.
 	src = os.ExpandEnv(src)
 	readOnly := false
